@@ -354,6 +354,37 @@ pub fn run(ctx: &Ctx) {
     }
     t.outcome("lengths");
     ctx.space("label lengths 0..=70 (alone, as first and as last label) and encoded name lengths 245..=262", n, "complete");
+    // space 2a': label counts: every count 1..=300 of short labels, alone and followed by one
+    // longer / over-long label
+    {
+        let mut cases: Vec<Vec<usize>> = Vec::new();
+        for count in 1..=300usize {
+            for l in 1..=3usize {
+                cases.push(vec![l; count]);
+            }
+            for last in [5usize, 63, 64] {
+                let mut v = vec![1usize; count];
+                v.push(last);
+                cases.push(v);
+            }
+            let mut v = vec![1usize; count];
+            v.insert(0, 64);
+            cases.push(v);
+        }
+        let n3 = cases.len() as u64;
+        par_shards(ctx, &cases, |lens, t: &mut Tally| {
+            t.evals += 1;
+            if lens.iter().map(|x| x + 1).sum::<usize>() + 1 <= 255 {
+                t.nontrivial += 1;
+            }
+            let f = check_lengths(lens);
+            t.outcome("lengths");
+            if !f.is_empty() {
+                ctx.violations(f);
+            }
+        });
+        ctx.space("label counts: every count 1..=300 of 1-, 2- and 3-byte labels, and of 1-byte labels followed by a 5-, 63- or 64-byte label or preceded by a 64-byte one (5 dot placements each)", n3, "complete");
+    }
     // space 2b: character class x position x length: every label length 0..=70 with every
     // combination of first / interior / last character class, alone and inside a longer name
     {
